@@ -37,10 +37,20 @@ def timeOf : Sexp → Option Int
 /-- `(bump <op> <args>)` -/
 def handle1 (op : String) (args : List Sexp) : Option String := do
   match op, args with
-  | "bump", t :: bs | "dt", t :: bs =>
+  | "bump", t :: bs =>
       let t ← timeOf t
       let bs ← bs.mapM argOf
       pure (reply (dtBump t bs))
+  | "dt", t :: bs =>
+      let t ← timeOf t
+      let bs ← bs.mapM argOf
+      pure (reply (dtReduce t bs))
+  -- `dt(bump)` with today's midnight given explicitly: `ok T:..` / `err ..` / `ok N` when the text is not a period
+  | "dtrel", [t, b] =>
+      let t ← timeOf t
+      match ← argOf b with
+      | .str s => pure (match dtOfBump t s with | some r => reply r | none => "ok N")
+      | _ => none
   -- the generated kernels on their own (translator validation grid)
   | "ym", [y, m] =>
       let y ← intOf y; let m ← intOf m
